@@ -404,7 +404,12 @@ def run(ctx, col: Collector):
         # comparisons in the name helpers
         for mod, fn in (('pydbml.renderer.dbml.default.table', 'get_full_name_for_dbml'), ('pydbml.renderer.sql.default.utils', 'get_full_name_for_sql'),
                         ('pydbml.renderer.sql.default.note', 'generate_comment_on')):
-            fi = idx.func(mod, fn)
+            sym_ = idx.resolve(mod, fn)         # the helper may be defined in another module and imported here
+            fi = idx.funcs.get(f'{sym_.module}:{sym_.name}') if sym_ is not None and sym_.kind == 'func' else None
+            if fi is None:
+                fi = idx.func(mod, fn)
+            from ..inline import inlined_info as _ii2
+            fi = _ii2(idx, fi, 3)               # a shared qualifying helper is read in place
             for n in ast.walk(fi.node):
                 if isinstance(n, ast.Compare) and len(n.ops) == 1 and isinstance(n.ops[0], (ast.Eq, ast.NotEq)) and 'schema' in norm(n.left) \
                         and isinstance(n.comparators[0], ast.Constant):
